@@ -180,6 +180,7 @@ class normalize_chunks:
                     for cs in (("auto",) * 3, ("auto", 2, "auto"), (-1, "auto", "auto"), (1, 1, "auto")):
                         for lim in (8, 64, 1000):
                             yield {"chunks": cs, "shape": (s0, s1, s2), "limit": lim, "dtype": "i4", "previous_chunks": None}
+        yield from _multi_auto_domain(tier, rng)
         # previous chunks (first: the recorded witness of known finding F4)
         yield {"chunks": ("auto",), "shape": (10,), "limit": 64, "dtype": "f8", "previous_chunks": ((1, 9),)}
         from contracts.slicing import chunkings
@@ -189,6 +190,30 @@ class normalize_chunks:
             for lim in (8, 16, 64, 256):
                 yield {"chunks": ("auto",), "shape": (n,), "limit": lim, "dtype": "f8", "previous_chunks": (prev,)}
                 yield {"chunks": ("auto", 2), "shape": (n, 4), "limit": lim, "dtype": "i4", "previous_chunks": (prev, (2, 2))}
+
+
+def _multi_auto_domain(tier, rng):
+    """several 'auto' axes together with previous_chunks (ints and explicit tuples), short and long axes"""
+    shapes2 = [(4, 400), (4, 100), (16, 16), (5, 33), (100, 3), (2, 1000)]
+    shapes3 = [(3, 8, 600), (10, 4, 400), (2, 2, 50)]
+    prevs2 = [(1, 10), (1, 5), (2, 2), (4, 1), (1, 100)]
+    prevs3 = [(1, 2, 20), (2, 1, 10), (1, 1, 5)]
+    limits = [64, 1000, 1600, 2400]
+    if tier == "quick":
+        limits = [1000, 1600]
+    for sh in shapes2:
+        for pv in prevs2:
+            for lim in limits:
+                for dt in ("u1", "f8"):
+                    yield {"chunks": ("auto", "auto"), "shape": sh, "limit": lim, "dtype": dt, "previous_chunks": pv}
+                    full = tuple(tuple([p] * (n // p) + ([n % p] if n % p else [])) for p, n in zip(pv, sh))
+                    yield {"chunks": ("auto", "auto"), "shape": sh, "limit": lim, "dtype": dt, "previous_chunks": full}
+    for sh in shapes3:
+        for pv in prevs3:
+            for lim in limits:
+                yield {"chunks": ("auto", "auto", "auto"), "shape": sh, "limit": lim, "dtype": "u1", "previous_chunks": pv}
+                yield {"chunks": (min(2, sh[0]), "auto", "auto"), "shape": sh, "limit": lim, "dtype": "u1", "previous_chunks": pv}
+                yield {"chunks": ("auto", -1, "auto"), "shape": sh, "limit": lim, "dtype": "u1", "previous_chunks": pv}
 
 
 def _expect_value_error(chunks, shape):
